@@ -215,7 +215,27 @@ func (w *Wrapper) Copy() Resource {
 
 	// Attributes
 	for _, attr := range w.Attrs() {
-		nw.Set(attr.Name, w.Get(attr.Name))
+		// Slices are copied so that they are not shared with w.
+		switch v := w.Get(attr.Name).(type) {
+		case []byte:
+			if v != nil {
+				nv := make([]byte, len(v))
+				_ = copy(nv, v)
+				v = nv
+			}
+
+			nw.Set(attr.Name, v)
+		case *[]byte:
+			if v != nil && *v != nil {
+				nv := make([]byte, len(*v))
+				_ = copy(nv, *v)
+				v = &nv
+			}
+
+			nw.Set(attr.Name, v)
+		default:
+			nw.Set(attr.Name, v)
+		}
 	}
 
 	// Relationships
@@ -223,7 +243,14 @@ func (w *Wrapper) Copy() Resource {
 		if rel.ToOne {
 			nw.Set(rel.FromName, w.Get(rel.FromName).(string))
 		} else {
-			nw.Set(rel.FromName, w.Get(rel.FromName).([]string))
+			ids := w.Get(rel.FromName).([]string)
+			if ids != nil {
+				nids := make([]string, len(ids))
+				_ = copy(nids, ids)
+				ids = nids
+			}
+
+			nw.Set(rel.FromName, ids)
 		}
 	}
 
